@@ -5,8 +5,19 @@ cd /repo || exit 2
 git diff --quiet || { echo "/repo is dirty"; exit 2; }
 git apply "/verif/seeded/$sid/patch.diff" || exit 2
 cd /verif
-out=$(./check "$prop" --tier "$tier" 2>&1 | tail -4)
-rc=$?
+./check "$prop" --tier "$tier" > /tmp/try_seed_out.txt 2>&1
 cd /repo && git checkout -- . 
-echo "== $sid vs $prop: $(echo "$out" | grep -E 'VIOLATION|ok:' | head -2)"
-echo "$out" | grep -v VIOLATION | head -2 | cut -c1-400
+echo "== $sid vs $prop: $(grep -E 'VIOLATION|ok:' /tmp/try_seed_out.txt | head -2)"
+python3 - "$prop" "$tier" <<'PY'
+import json,sys
+try:
+    r=json.load(open(f'/verif/work/replays/{sys.argv[1]}_{sys.argv[2]}_1.json'))
+except Exception as e:
+    print('  (no replay)'); sys.exit()
+seen=set()
+for v in r['all_violations']:
+    d=v['description'][:220]; k=d[:60]
+    if k in seen or 'Props/' in d: continue
+    seen.add(k); print('  ',v['kind'], d)
+    if len(seen)>=3: break
+PY
